@@ -88,6 +88,16 @@ def run(pid, tier, seed):
             with open(os.path.join(d3, n_), "wb") as f:
                 f.write(blob)
         sets.append((d3, ["a.log", "b.log", "junk.log", "long.log"], []))
+        i3 = len(sets) - 1
+        # a set in which nothing can be processed (an empty file, a two-byte file, a path that does not exist): no reader is
+        # started, the summary is still printed and still that of the run
+        d4 = os.path.join(sc, "s4")
+        os.makedirs(d4)
+        open(os.path.join(d4, "empty.log"), "wb").close()
+        with open(os.path.join(d4, "tiny.log"), "wb") as f:
+            f.write(b"ab")
+        sets.append((d4, ["empty.log", "tiny.log", "no-such-file.log"], []))
+        i4 = len(sets) - 1
         def kind_of(name):
             return "event" if name.endswith(".evtx") else "entry" if name.endswith(".journal") else "record" if "tmp" in name else "text"
         kinds_of = {si: {w: kind_of(n_) for w, n_ in enumerate(files)} for si, (_d, files, _w) in enumerate(sets)}
@@ -97,7 +107,10 @@ def run(pid, tier, seed):
         windows = {0: [[], ["-a", "2023-03-10T03:49:43.561000+00:00"], ["-a", "2023-03-10T03:49:43.560+00:00", "-b", "2023-03-10T03:49:43.566+00:00"]],
                    1: [[], ["-b", "2023-04-02T07:07:00.789680+00:00"]],
                    # (windows that leave exactly one message to a file, and to the whole run)
-                   2: [[], ["-a", gen.fmt_ts(gen.BASE + 2, 0, 0, 0)], ["-a", "2030-01-01"],
+                   2: [[], ["-b", "2023-04-02T07:07:00.789680+00:00"]],
+                   i4: [[], ["-a", "2000-01-01T00:00:00+00:00", "-b", "2000-01-02T03:04:05+00:00"], ["-a", "2000-01-01T00:00:00+00:00"],
+                        ["-b", "2031-05-06T07:08:09+00:00"]],
+                   i3: [[], ["-a", gen.fmt_ts(gen.BASE + 2, 0, 0, 0)], ["-a", "2030-01-01"],
                        ["-a", gen.fmt_ts(gen.BASE + 4, 0, 0, 0), "-b", gen.fmt_ts(gen.BASE + 6, 0, 0, 0)],
                        ["-a", gen.fmt_ts(gen.BASE + 7, 0, 0, 0), "-b", gen.fmt_ts(gen.BASE + 7, 0, 0, 0)]]}
         jobs = []
@@ -232,7 +245,7 @@ def run(pid, tier, seed):
                     if (shown is None) != (not has) or (has and shown != s_):
                         rep.violation("filter-line", "Datetime filter -%s shows %s, resolved %s" % (nm, shown, s_ if has else None), rec)
             # I->S: the Totals event against TLC's own sums
-            if len(trace_recs) < (8 if tier == "quick" else 40) and prints and len(files) <= runmodel.MAXN and si != 1:
+            if len(trace_recs) < (8 if tier == "quick" else 40) and prints and len(files) <= runmodel.MAXN and not any(f_.endswith(".journal") for f_ in files):
                 inst = {}
                 for e in ev:
                     if e["ev"] == "SendStart" and e["k"] == 1:
